@@ -94,8 +94,10 @@ impl Json {
     }
 }
 
+/// The spans in scope for the event being formatted, from the root to the
+/// event's own parent span (the leaf).
 struct SerializableContext<'a, 'b, Span, N>(
-    &'b crate::subscribe::Context<'a, Span>,
+    &'b crate::registry::SpanRef<'a, Span>,
     std::marker::PhantomData<N>,
 )
 where
@@ -114,10 +116,8 @@ where
         use serde::ser::SerializeSeq;
         let mut serializer = serializer_o.serialize_seq(None)?;
 
-        if let Some(leaf_span) = self.0.lookup_current() {
-            for span in leaf_span.scope().from_root() {
-                serializer.serialize_element(&SerializableSpan(&span, self.1))?;
-            }
+        for span in self.0.scope().from_root() {
+            serializer.serialize_element(&SerializableSpan(&span, self.1))?;
         }
 
         serializer.end()
@@ -276,11 +276,15 @@ where
                 }
             }
 
-            if self.format.display_span_list && current_span.is_some() {
-                serializer.serialize_entry(
-                    "spans",
-                    &SerializableContext(&ctx.ctx, format_field_marker),
-                )?;
+            if self.format.display_span_list {
+                // the list ends in the same span the `span` entry names: the
+                // event's own parent, not whatever span the thread is in
+                if let Some(ref leaf) = current_span {
+                    serializer.serialize_entry(
+                        "spans",
+                        &SerializableContext(leaf, format_field_marker),
+                    )?;
+                }
             }
 
             if self.display_thread_name {
